@@ -22,6 +22,9 @@ BatchOps ==
       O("split_sizes_111_2", "select", <<2>>), O("split_sizes_111_1", "select", <<1>>), O("split_with_sizes_111_2", "select", <<2>>),
       O("tensor_split2_0", "select", <<0, 1>>), O("tensor_split2_1", "select", <<2>>), O("tensor_split_idx1_1", "select", <<1, 2>>),
       O("repeat_interleave_0", "select", <<0, 0, 1, 1, 2, 2>>),
+      \* EMPTY selections: zero entries, hence zero grids (or a plain tensor)
+      O("slice_0_0", "select", <<>>), O("slice_from_end", "select", <<>>), O("list_empty", "select", <<>>), O("bool_mask_000", "select", <<>>),
+      O("narrow_0_1_0", "select", <<>>), O("cat_empty_front", "same", <<0>>),
       O("int_1", "item", <<1>>), O("int_neg1", "item", <<2>>), O("select_0_2", "item", <<2>>), O("unbind_1", "item", <<1>>), O("iter_0", "item", <<0>>),
       O("tuple_int_0", "item", <<0>>),
       O("flip_0", "reverse", <<0>>), O("torch_flip_0", "reverse", <<0>>), O("roll_0_1", "roll", <<1>>), O("roll_0_2", "roll", <<2>>),
